@@ -16,8 +16,8 @@ for d, _, files in os.walk(os.path.join(root, "stabilize")):
             if sub[-1] == "__init__":
                 sub = sub[:-1]
             t = ast.parse(open(p, encoding="utf-8").read())
-            canon.unelse(t)
             canon.normalise_comparisons(t)       # same normal forms as sa/model.py applies before canonicalise()
+            canon.normalise_ifs(t)
             trees[".".join(sub)] = t
 table = canon.build_table(trees)
 json.dump(table, open(canon.TABLE, "w"), indent=0, sort_keys=True)
